@@ -490,7 +490,7 @@ def corrupt_obligations(pid, tier, seed):
                     continue
                 if tier == 'quick' and tag != 'core' and cls in ('redirect', 'firstbucket', 'kind'):
                     continue
-                args = [('p', 'int'), ('q', 'int')] + ([('x', 'int')] if cls in ('key', 'sep') else [])
+                args = [('p', 'int'), ('q', 'int')] + ([('x', 'int')] if cls in ('key', 'sep', 'emptynode') else [])
                 pre = ['0 <= p < %d' % np_, '0 <= q < %d' % nq]
                 obs.append(dict(id=base + '/' + cls, mod='h_corrupt', fn='corrupt_step', nk=m, args=args, pre=pre,
                                 params=dict(P, cls=cls, np=np_, nq=nq), timeout=t))
